@@ -60,11 +60,19 @@ def main():
     rc, out = sh(["git", "-C", REPO, "apply", patch])
     results = {}
     try:
-        for c in todo:
+        from concurrent.futures import ThreadPoolExecutor
+
+        def one(c):
             t0 = time.time()
-            rc, out = sh([PY, os.path.join(VERIF, "harness", "check.py"), c, "--tier", "quick"], cwd=VERIF, timeout=3000)
+            rc, out = sh([PY, os.path.join(VERIF, "harness", "check.py"), c, "--tier", "quick"], cwd=VERIF, timeout=3000,
+                         env=dict(os.environ, VERIF_EVIDENCE_DIR="/tmp/ttverif_seed_evidence"))
             lines = [l for l in out.split("\n") if l.startswith("VIOLATION") or l.startswith("KNOWN-FINDING") or l.startswith("TIMEOUT") or "INFRASTRUCTURE" in l]
-            results[c] = {"exit": rc, "lines": [l[:200] for l in lines[:3]], "s": round(time.time() - t0, 1)}
+            return c, rc, lines, round(time.time() - t0, 1)
+
+        with ThreadPoolExecutor(max_workers=int(os.environ.get("SEEDTEST_JOBS", "10"))) as ex:
+            outs = list(ex.map(one, todo))
+        for c, rc, lines, dt in outs:
+            results[c] = {"exit": rc, "lines": [l[:200] for l in lines[:3]], "s": dt}
             # keep the replay of the first violation next to the seed
             for l in lines:
                 if l.startswith("VIOLATION"):
